@@ -124,6 +124,15 @@ SimIdemRetry(s) ==
        THEN RemoveKey(a.k, NoCas, ik, Sel(Q(IdemTTLs), h, 31))
        ELSE DoPublish([a EXCEPT !.ik = ik, !.ittl = Sel(Q(IdemTTLs), h, 31)])
 
+\* right after a sweep removed a key: a write to the same channel, mostly a re-publish of that very key (the harness runs it
+\* while the sweeper still sits in the event-handler call of the removal: the broadcast-order probe)
+SimAfterExpiry(s) ==
+  LET h == H(s + 250) IN
+  step.act = "ExpirePhase2" /\ pend = <<>> /\ step.removed /\
+  IF (h \div 3) % 4 = 0 /\ DOMAIN st # {}
+    THEN RemoveKey(Sel(Q(DOMAIN st), h, 1), NoCas, "", AnIdemTTL)
+    ELSE DoPublish(Mk(IF (h \div 5) % 4 = 0 THEN Sel(KeyQ3, h, 1) ELSE step.key, "", NoCas, 0, "", h))
+
 SimRemove(s) ==
   LET h == H(s + 130)
       ik == IF (h \div 7) % 3 = 0 THEN Sel(Q(IdemKeys), h, 13) ELSE ""
@@ -155,6 +164,7 @@ SimNext ==
   ELSE
   \/ (~Manual /\ (SweepExpire \/ SweepRemove \/ SweepIdem)) /\ w' = 0
   \/ \E s \in 1..(IF Manual THEN 6 ELSE 1) : ExpirePhase2 /\ w' = s
+  \/ ExpireDeliver /\ w' = 0
   \/ \E s \in 1..(IF Manual /\ Candidates(now) # {} THEN 3 ELSE 1) : ExpirePhase1 /\ w' = s
   \/ \E s \in 1..3 : Tick /\ w' = s
   \/ \E s \in 1..3 : SimPublish(s) /\ w' = s
@@ -165,11 +175,12 @@ SimNext ==
   \/ \E s \in 1..(IF Focus19 THEN 3 ELSE 1) : SimIdem(s) /\ w' = s
   \/ \E s \in 1..(IF Focus19 THEN 4 ELSE 2) : SimIdemAgain(s) /\ w' = s
   \/ \E s \in 1..(IF Focus19 THEN 3 ELSE 1) : SimIdemRetry(s) /\ w' = s
+  \/ \E s \in 1..(IF Manual THEN 10 ELSE 1) : SimAfterExpiry(s) /\ w' = s
   \/ \E s \in 1..1 : SimRemove(s) /\ w' = s
   \/ \E s \in 1..1 : SimRemoveHit(s) /\ w' = s
   \/ \E s \in 1..2 : SimReadState(s) /\ w' = s
   \/ \E s \in 1..1 : SimReadStream(s) /\ w' = s
   \/ ((H(7) % 5 = 0) \/ (DOMAIN idem # {} /\ H(7) % 2 = 0)) /\ Clear /\ w' = 0
 
-SimSpec == Init /\ w = 0 /\ [][SimNext]_simvars
+SimSpec == Init /\ w = 0 /\ [][SimNext /\ Frame]_simvars
 =============================================================================
